@@ -3,13 +3,42 @@ Every view of the reopened database must show the effects of every acknowledged 
 import crashrun
 LEVEL = "fault_enumeration"
 MANIFEST = dict(cat=LEVEL, ref="DESIGN.md 3.2, 6 (C01)",
-    tech="TLA+ reference spec Relational.tla generates workloads (TLC -simulate) and the admissible recovered states; every hook event of the real execution is a crash point materialised in two crash models (kill / power loss via a sync shadow), reopened and compared with the model",
+    tech="TLA+ protocol spec Durability.tla model-checked by TLC (crash after every action, two crash models) and bound to the code by trace validation of hook / system-call events; TLA+ reference spec Relational.tla generates workloads (TLC -simulate) and the admissible recovered states; every hook event of the real execution is a crash point materialised in two crash models (kill / power loss via a sync shadow), reopened and compared with the model",
     text="for each TLC-generated workload (DML, transactions, both checkpoint implementations, close/reopen; WAL on, synchronous=FULL) a snapshot is taken at EVERY page mutation, WAL frame write, fsync/msync, truncation and statement boundary, in the process-kill model and in the power-loss model; each snapshot is reopened and every view (scan, COUNT(*), primary-key, unique and secondary index lookups) must show all acknowledged effects (equal the Relational state after the acknowledged units, with or without the in-flight unit)",
     note="assumptions A-FS / A-KILL (DESIGN.md 2.3): no torn pages, directory operations durable in order; crash points only where hooks are; bounded Relational domain; open findings by signature (crash model : missing view group : phase)")
 
 
+def model_check(chk):
+    """(A) the page-level protocol Durability.tla: a crash after every action, both crash models; the witness
+    configurations (header page, bypass files, no fsync) must violate their invariant (non-vacuity)."""
+    import os, vlib
+    cfg = vlib.scratch() + "/MC_Durability.cfg"
+    base = open(os.path.join(vlib.SPEC, "MC_Durability.cfg")).read()
+    if chk.tier != "thorough":
+        base = base.replace("MaxStmts = 3", "MaxStmts = 2").replace("MaxMut = 5", "MaxMut = 4")
+    open(cfg, "w").write(base)
+    mc = vlib.run_tlc("MC_Durability.tla", cfg, coverage=True, timeout=1500)
+    vlib.tlc_ok(mc, "MC_Durability")
+    if mc["violated"]:
+        raise vlib.ToolError("Durability.tla violates %s: the protocol model contradicts the property" % mc["violated"])
+    wit = {}
+    for name, inv in (("header", "C01_power_header"), ("bypass", "C01_power_bypass"), ("nosync", "C01_power_logged")):
+        w = vlib.run_tlc("MC_Durability.tla", os.path.join(vlib.SPEC, "MC_Durability_witness_%s.cfg" % name), timeout=600)
+        vlib.tlc_ok(w, "MC_Durability_witness_" + name)
+        wit[name] = inv in w["violated"]
+        if not wit[name]:
+            raise vlib.ToolError("witness configuration %s no longer violates %s" % (name, inv))
+    return {"states": mc["stats"].get("distinct"), "transitions": mc["stats"].get("generated"),
+            "actions_covered": {a: t for a, (d, t) in mc["coverage"].items()}, "witnesses_violated": wit,
+            "invariants": ["C01_kill", "C01_power_logged", "NoRegressionOfAcked"]}
+
+
 def run(chk):
+    import vlib
+    vlib.build_harness()
+    mc = model_check(chk); chk.mark("tlc_mc")
     crashrun.evaluate(chk, "C01")
+    chk.cov["protocol_model_check"] = mc
 
 
 def replay(chk, path):
